@@ -556,4 +556,129 @@ example :
     = some [(0, 0, 0), (0, 0, 1), (0, 0, 2), (1, 0, 0), (2, 0, 0), (2, 0, 1), (2, 0, 2)] := by
   decide
 
+/-! ## plain auxiliaries nested inside the timed framer (`aux pa` in one of its frames)
+
+The auxiliary is a framer of its own: its clocks start when its main frame is entered, restart on every
+re-entry of that frame, and follow the same machine (`run`) in between — so every theorem above is also a
+theorem about the auxiliary, over the stamps since the entry.  The timed framer's own clocks and decisions are
+those of the program without the auxiliary. -/
+
+section plainAux
+variable {τ : Type} [Sub τ] [LE τ] [LT τ] [DecidableLE τ] [DecidableLT τ] [OfNat τ 0]
+
+theorem segueG_decideP_fst (fr : List (RFrame τ)) (pa : PAux τ) (now : τ) (s : St τ) (x : Option (Obs τ)) :
+    (segueG (decideP fr pa) now s x).1 = segue (transOf fr) now s := by
+  simp only [segueG, decideP, segue]
+  cases h : firstTrans { s with elapsed := now - s.stamp, recurred := s.recurred + 1 } (transOf fr s.active) <;>
+    simp
+
+theorem runFromP_fst (fr : List (RFrame τ)) (pa : PAux τ) (nows : List τ) :
+    ∀ (s : St τ) (x : Option (Obs τ)), (runFromP fr pa s x nows).map (·.1) = runFrom (transOf fr) s nows := by
+  induction nows with
+  | nil => intro s x; rfl
+  | cons now rest ih =>
+    intro s x
+    simp only [runFromP, runFrom, List.map_cons, ih, segueG_decideP_fst]
+
+/-- **The timed framer's own clock is unaffected by a plain auxiliary**: what the framer shows in every tick
+(clock values seen by its needs, outline changes, state) is exactly the run of the same frames without the
+auxiliary — for every program, every auxiliary, every stamp list. -/
+theorem C11_plain_aux_leaves_framer_clocks (fr : List (RFrame τ)) (pa : PAux τ) (nows : List τ) :
+    (runP fr pa nows).map (·.1) = run (transOf fr) nows := by
+  cases nows with
+  | nil => rfl
+  | cons now rest => simp only [runP, run, List.map_cons, runFromP_fst]
+
+/-- **The auxiliary's clocks restart on every entry of its main frame**: when the transition the timed framer
+takes in a tick enters the main frame (re-entry `go me` and entry through an over or under frame included), the
+auxiliary is in its first frame with stamp = now, elapsed 0, recurred 0 — whatever it was before. -/
+theorem C11_plain_aux_restarts_with_main_frame (fr : List (RFrame τ)) (pa : PAux τ) (now : τ) (s : St τ)
+    (x : Option (Obs τ)) (t : Trans τ)
+    (ht : firstTrans { s with elapsed := now - s.stamp, recurred := s.recurred + 1 } (transOf fr s.active) = some t)
+    (hin : (entersOf (outline fr s.active) (outline fr t.far) t.far).contains pa.main = true) :
+    (segueG (decideP fr pa) now s x).2 = some ⟨now, none, none, true, enter now 0⟩ := by
+  simp at hin
+  simp [segueG, decideP, ht, auxAfter, hin]
+
+/-- the auxiliary is gone when its main frame is exited and not entered again -/
+theorem C11_plain_aux_stops_with_main_frame (fr : List (RFrame τ)) (pa : PAux τ) (now : τ) (s : St τ)
+    (x : Option (Obs τ)) (t : Trans τ)
+    (ht : firstTrans { s with elapsed := now - s.stamp, recurred := s.recurred + 1 } (transOf fr s.active) = some t)
+    (hin : (entersOf (outline fr s.active) (outline fr t.far) t.far).contains pa.main = false)
+    (hex : (exitsOf (outline fr s.active) (outline fr t.far) t.far).contains pa.main = true) :
+    (segueG (decideP fr pa) now s x).2 = none := by
+  simp at hin hex
+  simp [segueG, decideP, ht, auxAfter, hin, hex]
+
+/-- during the ticks `nows` from state `s`, no transition the timed framer takes enters or exits the
+auxiliary's main frame (it may take none, or move among other frames / under frames of the main frame) -/
+def mainUntouched (fr : List (RFrame τ)) (pa : PAux τ) : St τ → List τ → Prop
+  | _, [] => True
+  | s, now :: rest =>
+    (∀ t, firstTrans { s with elapsed := now - s.stamp, recurred := s.recurred + 1 } (transOf fr s.active) = some t →
+      (entersOf (outline fr s.active) (outline fr t.far) t.far).contains pa.main = false ∧
+      (exitsOf (outline fr s.active) (outline fr t.far) t.far).contains pa.main = false) ∧
+    mainUntouched fr pa (segue (transOf fr) now s).after rest
+
+theorem runFromP_snd (fr : List (RFrame τ)) (pa : PAux τ) (nows : List τ) :
+    ∀ (s : St τ) (o : Obs τ), mainUntouched fr pa s nows →
+      (runFromP fr pa s (some o) nows).map (·.2) = (runFrom (transOf pa.frames) o.after nows).map some := by
+  induction nows with
+  | nil => intro s o _; rfl
+  | cons now rest ih =>
+    intro s o hu
+    obtain ⟨h1, h2⟩ := hu
+    have hfst := segueG_decideP_fst fr pa now s (some o)
+    have hsnd : (segueG (decideP fr pa) now s (some o)).2 = some (segue (transOf pa.frames) now o.after) := by
+      cases ht : firstTrans { s with elapsed := now - s.stamp, recurred := s.recurred + 1 } (transOf fr s.active) with
+      | none => simp [segueG, decideP, ht, auxAfter]
+      | some t =>
+        obtain ⟨a, b⟩ := h1 t ht
+        simp at a b
+        simp [segueG, decideP, ht, auxAfter, a, b]
+    simp only [runFromP, runFrom, List.map_cons, hsnd, hfst]
+    rw [ih _ _ h2]
+
+/-- **Between entries of its main frame the auxiliary is the same clock machine, started at the entry**:
+entered at stamp `now0` (`C11_plain_aux_restarts_with_main_frame`, or the start tick), then over any stretch
+of ticks in which the timed framer does not enter or exit the main frame, the auxiliary's observations are
+exactly `run` of its own frames over the stamps `now0 :: nows` — elapsed counted from ITS last outline change,
+recurred ITS iterations since, its `timeout` / `repeat` firing by `C11_timeout_fires_first` /
+`C11_repeat_fires_first` — whatever the timed framer's own clocks read. -/
+theorem C11_plain_aux_is_clock_machine_from_entry (fr : List (RFrame τ)) (pa : PAux τ) (s : St τ)
+    (now0 : τ) (nows : List τ) (hu : mainUntouched fr pa s nows) :
+    some ⟨now0, none, none, true, enter now0 0⟩ ::
+        (runFromP fr pa s (some ⟨now0, none, none, true, enter now0 0⟩) nows).map (·.2)
+      = (run (transOf pa.frames) (now0 :: nows)).map some := by
+  rw [runFromP_snd fr pa nows s _ hu]
+  simp [run]
+
+/-- without the auxiliary being active nothing of it appears until its main frame is entered -/
+theorem C11_plain_aux_inactive_until_entered (fr : List (RFrame τ)) (pa : PAux τ) (now : τ) (s : St τ)
+    (h : ∀ t, firstTrans { s with elapsed := now - s.stamp, recurred := s.recurred + 1 } (transOf fr s.active) = some t →
+      (entersOf (outline fr s.active) (outline fr t.far) t.far).contains pa.main = false) :
+    (segueG (decideP fr pa) now s none).2 = none := by
+  cases ht : firstTrans { s with elapsed := now - s.stamp, recurred := s.recurred + 1 } (transOf fr s.active) with
+  | none => simp [segueG, decideP, ht, auxAfter]
+  | some t =>
+    have a := h t ht
+    simp at a
+    simp [segueG, decideP, ht, auxAfter, a]
+
+end plainAux
+
+/-- non-vacuity: period 1.  Timed framer: frame 0 `go 1 if elapsed >= 2`; frame 1 (carries `aux pa`)
+`go 1 if elapsed >= 3` (forced re-entry).  Auxiliary: frame 0 `repeat 2`, frame 1 `go 0 if elapsed >= 1`.
+The auxiliary appears at tick 2 with clocks 0/0, runs on its own clocks, and restarts at ticks 5 and 8
+when frame 1 is re-entered; the timed framer's column is that of the program without it. -/
+example :
+    let fr : List (RFrame Int) := [⟨none, [⟨[.elapsed .ge 2], 1⟩]⟩, ⟨none, [⟨[.elapsed .ge 3], 1⟩]⟩]
+    let pa : PAux Int := ⟨1, [⟨none, [⟨[.recurred .ge 2], 1⟩]⟩, ⟨none, [⟨[.elapsed .ge 1], 0⟩]⟩]⟩
+    (runP fr pa (stamps 1 9)).map (fun r => ((r.1.after.active, r.1.after.elapsed),
+        r.2.map (fun o => (o.after.active, o.entered, o.after.elapsed, o.after.recurred))))
+      = [((0, 0), none), ((0, 1), none), ((1, 0), some (0, true, 0, 0)), ((1, 1), some (0, false, 1, 1)),
+         ((1, 2), some (1, true, 0, 0)), ((1, 0), some (0, true, 0, 0)), ((1, 1), some (0, false, 1, 1)),
+         ((1, 2), some (1, true, 0, 0)), ((1, 0), some (0, true, 0, 0))] := by
+  decide
+
 end Ioflo.FloClock
